@@ -1035,6 +1035,18 @@ impl Databases {
         dbs
     }
 
+    /// Id for a database about to be added: one past the largest id in use, so that a database
+    /// created after a restart that loaded only some of the databases does not reuse a live id.
+    pub fn next_database_id(&self) -> usize {
+        self.map
+            .read()
+            .expect("could not get lock")
+            .values()
+            .map(|db| db.metadata.id)
+            .max()
+            .map_or(0, |id| id.saturating_add(1))
+    }
+
     pub fn next_op_log_id() -> u64 {
         let start = SystemTime::now();
         let since_the_epoch = start
